@@ -274,7 +274,13 @@ func (u *ufac) group(parent map[string]any, kidsKey string, depth int, forceB bo
 			}
 			if ok {
 				c.node["kids"] = nk[:cut]
-				augs = append(augs, map[string]any{"path": toAny(c.path), "kids": taken})
+				ag := map[string]any{"path": toAny(c.path), "kids": taken}
+				if r.Chance(40) {
+					if w := u.pickWhen(taken); w != "" {
+						ag["when"] = w
+					}
+				}
+				augs = append(augs, ag)
 			}
 		}
 	}
@@ -309,6 +315,7 @@ func (u *ufac) group(parent map[string]any, kidsKey string, depth int, forceB bo
 		use["iff"] = fl
 	}
 	g := map[string]any{"n": gname, "kids": moved}
+	whenLater := !forceB && !dupInside && r.Chance(25)
 	if inB {
 		use["g"] = "b:" + gname
 		for _, k := range moved {
@@ -317,6 +324,11 @@ func (u *ufac) group(parent map[string]any, kidsKey string, depth int, forceB bo
 		u.bGroup = append(u.bGroup, g)
 	} else {
 		u.mGroup = append(u.mGroup, g)
+	}
+	if whenLater {
+		if w := u.pickWhen(moved); w != "" {
+			use["when"] = w
+		}
 	}
 	nk := append([]any{}, kids[:i]...)
 	nk = append(nk, use)
@@ -584,6 +596,11 @@ func (u *ufac) augment(body []any) {
 		}
 		a["iff"] = fl
 	}
+	if !dupInside && r.Chance(25) {
+		if w := u.pickWhen(taken); w != "" {
+			a["when"] = w
+		}
+	}
 	if cross {
 		for _, k := range taken {
 			markNs(k.(map[string]any), u.a2names)
@@ -652,10 +669,56 @@ func genYUses(r *Rng, tier string, n int, emit func(Case)) {
 
 // ---- rendering -----------------------------------------------------------------------------------------------
 
+var whenExprs = []string{"1 = 1", "'a' != 'b'", "true()", "not(false())", "2 > 1"}
+
+// the names of the nodes a list of definitions introduces at its top level, looking through uses
+func (u *ufac) introduced(kids []any, out *[]string, depth int) {
+	if depth > 20 {
+		return
+	}
+	for _, k := range kids {
+		kn := k.(map[string]any)
+		if cstr(kn, "k") == "uses" {
+			if g := u.groupingByName(cstr(kn, "g")); g != nil {
+				u.introduced(carr(g, "kids"), out, depth+1)
+			}
+			continue
+		}
+		*out = append(*out, cstr(kn, "n"))
+	}
+}
+
+// a `when` for a uses / augment that introduces `kids`: written on every node introduced in the inline module
+// (a node takes one `when` only); "" when some node has one already
+func (u *ufac) pickWhen(kids []any) string {
+	var names []string
+	u.introduced(kids, &names, 0)
+	if len(names) == 0 {
+		return ""
+	}
+	var all []map[string]any
+	for _, nm := range names {
+		var ns []map[string]any
+		findAllByName(u.plain, nm, &ns)
+		if len(ns) != 1 || len(carr(ns[0], "whens")) > 0 {
+			return ""
+		}
+		all = append(all, ns[0])
+	}
+	w := pick(u.r, whenExprs)
+	for _, pn := range all {
+		pn["whens"] = []any{w}
+	}
+	return w
+}
+
 func renderUses(b *strings.Builder, n map[string]any, ind string) {
 	var body strings.Builder
 	for _, f := range carr(n, "iff") {
 		body.WriteString(ind + "  if-feature " + f.(string) + ";\n")
+	}
+	if w := cstr(n, "when"); w != "" {
+		body.WriteString(ind + "  when " + yq(w) + ";\n")
 	}
 	for _, rf := range carr(n, "refines") {
 		rm := rf.(map[string]any)
@@ -680,6 +743,9 @@ func renderUses(b *strings.Builder, n map[string]any, ind string) {
 			p = append(p, e.(string))
 		}
 		body.WriteString(ind + "  augment " + strings.Join(p, "/") + " {\n")
+		if w := cstr(am, "when"); w != "" {
+			body.WriteString(ind + "    when " + yq(w) + ";\n")
+		}
 		for _, k := range carr(am, "kids") {
 			renderAny(&body, k.(map[string]any), ind+"    ")
 		}
@@ -752,6 +818,9 @@ func renderAugments(b *strings.Builder, as []any) {
 		for _, f := range carr(am, "iff") {
 			b.WriteString("    if-feature " + f.(string) + ";\n")
 		}
+		if w := cstr(am, "when"); w != "" {
+			b.WriteString("    when " + yq(w) + ";\n")
+		}
 		for _, k := range carr(am, "kids") {
 			renderAny(b, k.(map[string]any), "    ")
 		}
@@ -793,6 +862,10 @@ func stripNs(d *dnode, ns map[string]string) *dnode {
 		case strings.HasPrefix(f, "ns="):
 			ns[d.name] = strings.TrimPrefix(f, "ns=")
 		case strings.HasPrefix(f, "mod="):
+		case strings.HasPrefix(f, "when="):
+			// written on a uses / augment a `when` is evaluated at the parent, written in place at the node: the
+			// inline module cannot say the former, so the comparison is of the expressions
+			keep = append(keep, strings.SplitN(f, "/", 2)[0])
 		default:
 			keep = append(keep, f)
 		}
